@@ -2,8 +2,8 @@ SPECIFICATION Spec
 CONSTANTS
   Universe = "GQ"
   Part = 0
-  Parts = 1
+  Parts = 4
   Known = {}
   Tags <- TagsFromFile
-INVARIANT DemoAsIs
+INVARIANT RoundTrip
 CHECK_DEADLOCK FALSE
